@@ -213,12 +213,17 @@ func runC16(c *sim.Ctx) *sim.Violation {
 	for fb := 0; fb < 256; fb++ {
 		first := byte(fb)
 		a := c16Body(c, first)
-		frame, _ := ref.Encode(a)
+		frame, fm := ref.Encode(a)
 		damaged := false
 		if first>>4 != 0 && c.T.Bool(1, 3) {
 			// a body that is not valid but may still be accepted (reserved bits set,
 			// flipped bytes): whenever decoding succeeds, type and flags must hold
-			frame = damageBody(c.T, frame)
+			if f2, ok := setReserved(c.T, frame, fm); ok && c.T.Bool(2, 3) {
+				frame = f2
+				c.Count("fault.reserved-bits-set-in-a-flags-byte-of-the-body")
+			} else {
+				frame = damageBody(c.T, frame)
+			}
 			damaged = true
 		}
 		_, body, _, _ := ref.SplitFrame(frame)
